@@ -1,2 +1,5 @@
 pub mod conc;
 pub mod hist;
+pub mod inject;
+pub mod scc;
+pub mod serde_eng;
